@@ -304,6 +304,10 @@ def check_c02(tier, seed):
     run_batch(out, "thresholds", "A", gens.threshold_histories(tier, seed))
     for dn, hs in random_batches(seed + 1, tier, 50, 500, 40, dicts=("A",), reopen_p=0.06).items():
         run_batch(out, f"forks{dn}", dn, gens.with_forks(rng, hs, 0.7))
+    # names whose on-disk form is not their character count: supplementary-plane characters (two code units
+    # each), high BMP, NUL inside the name, 31-unit boundary
+    for dn, hs in random_batches(seed + 11, tier, 16, 200, 30, dicts=("C", "D", "E"), reopen_p=0.06).items():
+        run_batch(out, f"names{dn}", dn, hs)
     fid = Fidelity()
     for v4 in (False, True):
         design_phys(out, 4 if tier == "quick" else 5, v4, False, invs="InvOpen InvWF",
